@@ -160,14 +160,61 @@ def check(ctx, rep):
             h = prog.resolve_method(IC, hname) if hname else None
             if h is None or (h.cls is not IC and IC is not interp):
                 continue
+            # the handler is evaluated with args = ("ARG0", "ARG1", ...) and a symbol table that maps ARGk to 1000 + k: the
+            # jump targets it can assign tell which argument position it looks the symbol up at, however the value is
+            # unpacked, renamed or handed to helper methods
+            from ..paths import Const as _C
+
+            nargs = max(positions) + 3
+            argv = tuple(f"ARG{i}" for i in range(nargs))
             used = set()
-            for s in ast.walk(h.node):
-                if isinstance(s, ast.Subscript) and norm(s.value) == "self.symbolTable":
-                    k = s.slice
-                    if isinstance(k, ast.Subscript) and isinstance(k.value, ast.Name) and isinstance(k.slice, ast.Constant):
-                        used.add(k.slice.value)
-                    else:
-                        used.add(norm(k))
+            aname = h.params[2] if len(h.params) > 2 else "args"
+            tried = []
+            for width in sorted({nargs, max(positions) + 1, max(positions) + 2}):
+                argv = tuple(f"ARG{i}" for i in range(width))
+                facts = {"self.symbolTable": _C({a: 1000 + i for i, a in enumerate(argv)})}
+                wk = Walker(prog, ctx.resolver, assumptions=facts, sticky=set(facts), merge_loops=True,
+                            inline=lambda fn, t, d: d < 3 and t.bound_cls is not None and fn.cls is not None and fn.cls.module is h.module
+                            and not fn.name.startswith("cmd"))
+                try:
+                    for pth in wk.run(h, IC, env={aname: _C(argv)}, facts=dict(facts)):
+                        for e in pth.events:
+                            if e.kind == "assign" and isinstance(e.target, str) and e.target in ("self.programCounter", "self.movePCForward", "self.movePCBack") \
+                                    and e.extra is not None and e.extra.kind == "const" and isinstance(e.extra.value, int) and e.extra.value >= 1000:
+                                used.add(e.extra.value - 1000)
+                except Exception:
+                    pass
+                if used:
+                    break
+            # lookups on paths the evaluation does not take (exception handlers): resolved through unpacking and helper parameters
+            from ..structure import helper_calls
+
+            def position_of(k, fn, bind, depth=0):
+                if isinstance(k, ast.Subscript) and isinstance(k.value, ast.Name) and k.value.id == (fn.params[2] if fn is h and len(fn.params) > 2 else aname) \
+                        and isinstance(k.slice, ast.Constant):
+                    return k.slice.value
+                if isinstance(k, ast.Name):
+                    for a_ in ast.walk(fn.node):
+                        if isinstance(a_, ast.Assign) and len(a_.targets) == 1 and isinstance(a_.targets[0], (ast.Tuple, ast.List)) \
+                                and isinstance(a_.value, ast.Name) and a_.value.id == aname and fn is h:
+                            names_ = [x.id if isinstance(x, ast.Name) else None for x in a_.targets[0].elts]
+                            if k.id in names_:
+                                return names_.index(k.id)
+                        if isinstance(a_, ast.Assign) and len(a_.targets) == 1 and isinstance(a_.targets[0], ast.Name) and a_.targets[0].id == k.id and depth < 3:
+                            r_ = position_of(a_.value, fn, bind, depth + 1)
+                            if r_ is not None:
+                                return r_
+                    if bind and k.id in bind and depth < 3:
+                        return position_of(bind[k.id], h, None, depth + 1)
+                return None
+
+            scopes = [(h, None)] + [(g, b) for g, _, caller, b in helper_calls(prog, ctx.resolver, h, IC, depth=1) if not g.name.startswith("cmd")]
+            for fn, bind in scopes:
+                for s in ast.walk(fn.node):
+                    if isinstance(s, ast.Subscript) and norm(s.value) == "self.symbolTable":
+                        pos = position_of(s.slice, fn, bind)
+                        used.add(pos if pos is not None else norm(s.slice))
+            used = {u for u in used if not (isinstance(u, str) and any(isinstance(v, int) for v in used) and False)}
             ok = used and used <= positions and len(positions) == 1
             rep.add("R17c", f"{op}: symbol stored at {sorted(positions)} / looked up at {sorted(map(str, used))} in {h.qualname}", bool(ok), ctx.where(h),
                     "" if ok else f"the compiler stores the end-of-element symbol at tuple position {sorted(positions)} of {op}'s arguments but {h.qualname} "
@@ -200,18 +247,35 @@ def check(ctx, rep):
     if at is None or pst is None:
         problems.append("addTag/parseStartTag not found")
     else:
-        # START_SCOPE is emitted exactly when the tag carries a command
-        ok_scope = False
-        for n in ast.walk(at.node):
-            if isinstance(n, ast.If) and norm(n.test) in ("command is not None", "command != None", "command"):
-                if any("TAL_START_SCOPE" in norm(x) for s in n.body for x in ast.walk(s) if isinstance(x, ast.Call)):
-                    ok_scope = True
-                if any("TAL_START_SCOPE" in norm(x) for s in n.orelse for x in ast.walk(s) if isinstance(x, ast.Call)):
+        # START_SCOPE is emitted exactly when the tag carries a command (every path of addTag, whichever way it is written)
+        n_cmd = n_plain = 0
+        for pth in Walker(prog, ctx.resolver, merge_loops=True).run(at, comp):
+            if pth.kind == "raise":
+                continue
+            has = None
+            for e in pth.events:
+                if e.kind == "test" and e.extra is not None:
+                    t = norm(e.node)
+                    if t in ("command is not None", "command != None", "command"):
+                        has = bool(e.extra)
+                    elif t in ("command is None", "command == None"):
+                        has = not bool(e.extra)
+            scoped = [e for e in pth.events if e.kind == "call" and isinstance(e.node.func, ast.Attribute) and e.node.func.attr == "addCommand"
+                      and "TAL_START_SCOPE" in norm(e.node)]
+            if has is True:
+                n_cmd += 1
+                if len(scoped) != 1:
+                    problems.append("addTag does not open a scope for elements that carry a command")
+            elif has is False:
+                n_plain += 1
+                if scoped:
                     problems.append("a scope is opened for elements without commands")
-        if not ok_scope:
+        if not n_cmd:
             problems.append("addTag does not open a scope for elements that carry a command")
         # in parseStartTag: after a symbol was allocated every path adds the tag with a command
-        w = Walker(prog, ctx.resolver, merge_loops=True)
+        w = Walker(prog, ctx.resolver, merge_loops=True,
+                   inline=lambda fn, t, d: d < 2 and t.bound_cls is not None and fn.cls is not None and fn.cls.module is pst.module
+                   and fn.name not in ("addTag", "addCommand", "popTag") and any(isinstance(x, ast.Attribute) and x.attr == "addTag" for x in ast.walk(fn.node)))
         try:
             for p in w.run(pst, comp):
                 if p.kind == "raise":
@@ -222,7 +286,7 @@ def check(ctx, rep):
                         alloc = i
                 if alloc is None:
                     continue
-                has_cmd = any(e.kind == "assign" and e.target == "tagProperties['command']" for e in p.events[alloc:])
+                has_cmd = any(e.kind == "assign" and isinstance(e.target, str) and e.target.endswith("['command']") for e in p.events[alloc:])
                 added = any(e.kind == "call" and isinstance(e.node.func, ast.Attribute) and e.node.func.attr == "addTag" for e in p.events[alloc:])
                 if not (has_cmd and added):
                     problems.append("a path allocates an end symbol but adds the tag without a command (END_SCOPE would pop a scope that was never pushed)")
@@ -290,7 +354,9 @@ def check(ctx, rep):
             h = IC.methods.get(hname) if IC is not interp else interp.methods.get(hname)
             if h is None:
                 continue
-            w = Walker(prog, ctx.resolver, merge_loops=True)
+            w = Walker(prog, ctx.resolver, merge_loops=True,
+                       inline=lambda fn, t, d: d < 3 and t.bound_cls is not None and fn.cls is not None and fn.cls.module is h.module
+                       and not fn.name.startswith("cmd") and any(isinstance(x, ast.Attribute) and x.attr == "programCounter" for x in ast.walk(fn.node)))
             problems = []
             try:
                 for p in w.run(h, IC):
@@ -347,32 +413,29 @@ def check(ctx, rep):
         oparam = ev.params[2] if len(ev.params) > 2 else "originalAtts"
         problems = set()
         n_outside = 0
-        for p in Walker(prog, ctx.resolver).run(ev, ctxcls):
-            outside = None
-            for e in p.events:
-                if e.kind == "test" and e.extra is not None:
-                    t = norm(e.node)
-                    if t in (f"{oparam} is not None", f"{oparam} != None"):
-                        outside = bool(e.extra)
-                    elif t in (f"{oparam} is None", f"{oparam} == None"):
-                        outside = not bool(e.extra)
-            if outside is not True:
+        from ..paths import Const as _C
+
+        marker = {"__original_attributes__": 1}
+        # evaluated with a non-None attribute mapping: the way the method tests for "called by a template command" does not matter
+        for p in Walker(prog, ctx.resolver, merge_loops=True).run(ev, ctxcls, env={oparam: _C(marker)}):
+            if p.kind == "raise" and not p.events:
                 continue
             n_outside += 1
             bound = None
             for i, e in enumerate(p.events):
-                if e.kind == "assign" and e.target == "self.globals['attrs']" and isinstance(e.node, ast.Assign) and norm(e.node.value) == oparam:
+                if e.kind == "assign" and e.target == "self.globals['attrs']" and e.extra is not None and e.extra.kind == "const" and e.extra.value is marker:
                     bound = i
                     break
-            first_eval = next((i for i, e in enumerate(p.events) if e.kind == "call" and isinstance(e.node.func, ast.Attribute)
-                               and dotted(e.node.func.value) == "self" and e.node.func.attr.startswith("evaluate")), None)
+            first_eval = next((i for i, e in enumerate(p.events) if e.kind == "call" and (
+                (isinstance(e.node.func, ast.Attribute) and dotted(e.node.func.value) == "self" and e.node.func.attr.startswith("evaluate"))
+                or (isinstance(e.node.func, ast.Call) and dotted(e.node.func.func) == "getattr"))), None)
             if bound is None:
                 problems.add("an evaluation requested by a template command does not bind `attrs` to that element's attributes "
                              "(`attrs` keeps whatever element set it last, e.g. a child whose scope has already been closed)")
             elif first_eval is not None and bound > first_eval:
                 problems.add("`attrs` is bound after the expression has been evaluated")
         if not n_outside:
-            problems.add("no path distinguishes evaluations requested by template commands")
+            problems.add("no path through the evaluation entry point")
         rep.add("R17i", f"{ev.qualname}: binds attrs before evaluating", not problems, ctx.where(ev), "; ".join(sorted(problems)), key="R17i|evaluate")
         # every command handler hands over the attributes of the element it is working on
         ti = mod.classes.get("TemplateInterpreter")
